@@ -50,6 +50,7 @@ class SimScript:
     def __init__(self, rng=None, profile=None, record=None):
         self.rng, self.profile, self.replay = rng, dict(profile or {}), record
         self.jobs, self.dts = [], []
+        self.n_failed = 0
 
     def record(self):
         return dict(jobs=list(self.jobs), dts=list(self.dts))
@@ -73,7 +74,8 @@ class SimScript:
             p, r = self.profile, self.rng
             u = r.random()
             room = max(0, min(MAX_T, max_epoch) - start_epoch)
-            if u < p.get("p_fail", 0.15):
+            if u < p.get("p_fail", 0.15) and (p.get("max_failed_total") is None or self.n_failed < p["max_failed_total"]):
+                self.n_failed += 1
                 status, n = "Failed", r.choice([0, 0, 1, 2, r.randint(0, room)])
             elif u < p.get("p_fail", 0.15) + p.get("p_early", 0.1):
                 status, n = "Completed", r.choice([1, 1, 2, r.randint(0, room)])
@@ -225,7 +227,7 @@ def make_sim_backend_class():
 
 
 # ------------------------------------------------------------------------------------------------------
-def run_sim_case(case, hard_limit=250):
+def run_sim_case(case, hard_limit=450):
     """case: dict(kind='sim', scheduler, sched_seed, mode, params(n_workers, async, wait, max_failures, criterion),
     delays, sleep, profile, seed) or the same with record=dict(sim=..., script=...) for a replay."""
     import sys
@@ -318,7 +320,19 @@ def run_sim_case(case, hard_limit=250):
             os.environ.pop("SYNETUNE_FOLDER", None)
         else:
             os.environ["SYNETUNE_FOLDER"] = old_folder
-    return dict(trace=trace, outcome=outcome, aborted=aborted, iterations=recorder.iterations,
+    end = None
+    if not aborted:
+        logging.disable(logging.CRITICAL)
+        try:
+            status = tuner.tuning_status
+            end = dict(busy=[t for t, _ in backend.busy_trial_ids()], time=backend.time_keeper.time(),
+                       smap=[[t, scripted.status_name(v)] for t, v in status.last_trial_status_seen.items()],
+                       counters=dict(started=status.num_trials_started, completed=status.num_trials_completed,
+                                     failed=status.num_trials_failed, finished=status.num_trials_finished,
+                                     running=status.num_trials_running))
+        finally:
+            logging.disable(logging.NOTSET)
+    return dict(trace=trace, outcome=outcome, aborted=aborted, iterations=recorder.iterations, end=end,
                 jobs=backend.jobs, poll_times=backend.poll_times, checks=backend.checks, occupancy=[],
                 status_after=backend.status_after, loop_obs=recorder.loop_obs, at_exit=recorder.at_exit,
                 record=dict(sim=sim_script.record(), script=script.record()))
@@ -379,7 +393,8 @@ def check_sim(params, out):
 
 
 def gen_sim_case(rng):
-    sched = rng.choice(["scripted", "scripted", "fifo_random", "hyperband_stopping", "hyperband_promotion"])
+    sched = rng.choice(["scripted", "scripted", "fifo_random", "hyperband_stopping", "hyperband_promotion",
+                        "hyperband_promotion", "sync_hyperband", "dehb"])
     n_workers = rng.choice([1, 2, 2, 3, 4])
     params = dict(n_workers=n_workers, wait=rng.random() < 0.3, max_failures=rng.choice([1, 3, 50, 50]),
                   criterion=dict(max_wallclock_time=float(rng.choice([20, 40, 80])),
@@ -397,9 +412,14 @@ def gen_sim_case(rng):
     profile = dict(p_fail=rng.choice([0.05, 0.15, 0.3]), p_stop_ext=rng.choice([0.0, 0.05]), p_early=0.1,
                    outside=rng.choice([0.0, 1.0]), p_pause=0.15, p_stop=0.15, p_none=0.02, p_resume=0.4, p_resume_bad=0.0,
                    p_ckpt=0.1)
+    if sched in ("sync_hyperband", "dehb"):   # see tuner_real.FEW_FAILURES: one failed job per run at most
+        profile.update(max_failed_total=1, p_early=0.0)
+        params["criterion"] = dict(max_wallclock_time=float(rng.choice([60, 120, 200])),
+                                   max_num_trials_started=rng.choice([15, 25, 40]))
+    sleep = rng.choice([1.0, 5.0]) if sched in ("sync_hyperband", "dehb") else rng.choice([0.5, 1.0, 5.0])
     return dict(kind="sim", scheduler=sched, sched_seed=rng.randrange(1000), mode=rng.choice(["min", "max"]),
                 mra=(sched.startswith("hyperband") and rng.random() < 0.7),
-                params=params, delays=delays, sleep=rng.choice([0.5, 1.0, 5.0]), profile=profile,
+                params=params, delays=delays, sleep=sleep, profile=profile,
                 seed=rng.getrandbits(48))
 
 
@@ -472,6 +492,45 @@ def check_sim_criterion(params, out):
     return bad
 
 
+
+def check_sim_end(params, out):
+    """After run() returned (normally or by exception): nothing is left running in the simulator backend - judged on
+    trials that have reported at least once (trials without a report are invisible to stop_all, as the simulator
+    documents) - and the counters equal the numbers of trials per status."""
+    bad = []
+    end = out.get("end")
+    if end is None:
+        return bad
+    tr = out["trace"]
+    reported = {t for ev in tr if ev[0] == "cb_fetch" for t, _ in ev[2]}
+    busy = [t for t in end["busy"] if t in reported]
+    if busy:
+        bad.append(("after run() returned (%s) backend.busy_trial_ids() still lists trials %s" % (out["outcome"][:2], busy),
+                    dict(check="finally", event="left_running", backend="simulator")))
+    live = sorted({j["trial"] for j in out["jobs"] if j["cancelled"] is None and j["end"] is not None
+                   and j["end"] > end["time"] and j["trial"] in reported})
+    if live and not busy:
+        bad.append(("after run() returned the scripted jobs of trials %s are still running (end after simulated time %.3f) "
+                    "and were never stopped" % (live, end["time"]),
+                    dict(check="finally", event="job_not_stopped", backend="simulator")))
+    smap, c = end["smap"], end["counters"]
+    cnt = lambda names: sum(1 for _, s in smap if s in names)
+    want = dict(started=len(smap), completed=cnt(("Completed",)), failed=cnt(("Failed",)),
+                finished=cnt(("Completed", "Stopped", "Stopping", "Failed")), running=cnt(("InProgress",)))
+    for k, v in want.items():
+        if c[k] != v:
+            bad.append(("counter %s = %d but the status map has %d" % (k, c[k], v), dict(check="counters", counter=k, backend="simulator")))
+    n_started = sum(1 for ev in tr if ev[0] == "b_start")
+    if c["started"] != n_started or c["running"] != 0:
+        bad.append(("num_trials_started = %d (start_trial calls %d), num_trials_running = %d after run() returned" % (
+            c["started"], n_started, c["running"]), dict(check="counters", counter="started_running", backend="simulator")))
+    stale = [t for t, s in smap if s == "Paused" and t in live + busy]
+    if stale:
+        bad.append(("trials %s are listed Paused by TuningStatus although their (resumed) job was running when run() "
+                    "returned" % stale, dict(check="counters", counter="paused_but_running", backend="simulator")))
+    return bad
+
+
 def run_sim(ctx, replay_cases, prop="C01"):
     if replay_cases is not None:
         cases = replay_cases
@@ -493,7 +552,7 @@ def run_sim(ctx, replay_cases, prop="C01"):
                       + ("_cancelled" if j["cancelled"] is not None else ""))
         if prop == "C12":
             ctx.h("sim_criterion_fields", ",".join(sorted((case["params"].get("criterion") or {}).keys())))
-            for what, sig in check_sim_criterion(case["params"], out):
+            for what, sig in check_sim_criterion(case["params"], out) + check_sim_end(case["params"], out):
                 ctx.violation("property", "[simulator backend, %s] %s" % (case["scheduler"], what), case=rep,
                               signature=dict(sig, scheduler=case["scheduler"]))
             continue
